@@ -338,7 +338,7 @@ func genAddr(r *util.Rng) string {
 	case 2:
 		host = "[::1]"
 	case 3:
-		host = fmt.Sprintf("[fe80::%x:%x%%%s]", r.Intn(65536), r.Intn(65536), []string{"eth0", "lo0", "1", "en-1"}[r.Intn(4)])
+		host = fmt.Sprintf("[fe80::%x:%x%%%s]", r.Intn(65536), r.Intn(65536), []string{"eth0", "lo0", "1", "en-1", "25g0", "251", "25", "2", "%25eth0"}[r.Intn(9)])
 	case 4:
 		host = fmt.Sprintf("[2001:db8::%x]", r.Intn(65536))
 	case 5:
@@ -347,7 +347,7 @@ func genAddr(r *util.Rng) string {
 	port := []string{"80", "0", "65535", "9851", "", "x", "123456"}[r.Intn(7)]
 	sep := []string{"://", "://", "://", ":", ":/", "//", ""}[r.Intn(7)]
 	if strings.ToLower(sc) == "unix" {
-		p := []string{"/tmp/a.sock", "a.sock", "/tmp/../x/./y.sock", "/", "", "dir/sub/s", "/a//b/", "/../x", "../x", "./", ".", "/a/../../b", "a/..", "..", "/a/./b/../c.sock", "a%2f..", "//x"}[r.Intn(17)]
+		p := []string{"/tmp/a.sock", "a.sock", "/tmp/../x/./y.sock", "/", "", "dir/sub/s", "/a//b/", "/../x", "../x", "./", ".", "/a/../../b", "a/..", "..", "/a/./b/../c.sock", "a%2f..", "//x", "/tmp/load100%25.sock", "%25", "/a%2525b", "/x%2"}[r.Intn(21)]
 		return sc + sep + p
 	}
 	s := sc + sep + host
@@ -361,7 +361,7 @@ func genAddr(r *util.Rng) string {
 }
 
 func genMalformed(r *util.Rng) string {
-	alphabet := []byte("a:/[]%@?#.1 \x00\\tcpunix-_~!$&'()*+,;=<>\"{}|^`\x7f\x80\xff")
+	alphabet := []byte("a:/[]%@?#.125 \x00\\tcpunix-_~!$&'()*+,;=<>\"{}|^`\x7f\x80\xff")
 	n := r.Intn(14)
 	b := make([]byte, n)
 	for i := range b {
